@@ -92,7 +92,14 @@ def _run_one(case):
             res = _PROP.run_case(case)
         return ('ok', case, [(c, bool(ok), d) for c, ok, d in res], time.time() - t0)
     except Exception as e:
-        return ('error', case, '%s: %s\n%s' % (type(e).__name__, e, traceback.format_exc(limit=6)), time.time() - t0)
+        # where was it raised?  An exception coming out of the tree under verification on an input of the property's
+        # family means "no answer": a violation of the property; one raised by the harness itself is a broken check.
+        tb = traceback.extract_tb(e.__traceback__)
+        inner = tb[-1].filename if tb else ''
+        in_repo = inner.startswith(env.REPO + os.sep)
+        kind = 'raised-in-repo' if in_repo else 'error'
+        where = '%s:%s in %s' % (os.path.relpath(inner, env.REPO) if in_repo else inner, tb[-1].lineno if tb else 0, tb[-1].name if tb else '')
+        return (kind, case, '%s: %s @ %s\n%s' % (type(e).__name__, e, where, traceback.format_exc(limit=6)), time.time() - t0)
 
 
 def jsonable(x):
@@ -216,6 +223,8 @@ def run_property(prop, tier='quick', replay=None):
                     if status == 'error':
                         errors.append(dict(case=case, error=res))
                         continue
+                    if status == 'raised-in-repo':
+                        res = [('completes-without-error', False, dict(exception=res.splitlines()[0], traceback=res))]
                     if prop.nontrivial(case):
                         distinct.add(prop.case_key(case))
                     if len(samples) < 3:
